@@ -64,6 +64,7 @@ void F__ZSt20__throw_out_of_rangePKc(char* m) { throw_std(TI(12out_of_range)); }
 void F__ZSt24__throw_out_of_range_fmtPKcz(char* m, ...) { throw_std(TI(12out_of_range)); }
 void F__ZSt24__throw_invalid_argumentPKc(char* m) { throw_std(TI(16invalid_argument)); }
 void F__ZSt17__throw_bad_allocv(void) { throw_std(TI(9bad_alloc)); }
+void F__ZSt28__throw_bad_array_new_lengthv(void) { throw_std(TI(9bad_alloc)); }
 void F__ZSt16__throw_bad_castv(void) { throw_std(TI(8bad_cast)); }
 void F__ZSt25__throw_bad_function_callv(void) { throw_std(TI(17bad_function_call)); }
 void F__ZSt20__throw_system_errori(uint32_t e) { throw_std(TI(12system_error)); }
